@@ -1,5 +1,7 @@
 import Driver.Mon
 import AV.Spec.C20
+import AV.Streams.Closure
+import AV.Gen.Ontology
 import AV.Spec.C06
 import AV.Spec.C02
 import AV.Spec.C17
@@ -367,7 +369,8 @@ def c05Step (sin sobs : Json) : Option String :=
     let createIdx := evs.findIdx fun e => e.name == "create" && Val.idGet (toJ (e.args.getD 0 Json.null)) == actId
     let setIdx := evs.findIdx fun e => e.name == "setOutbox"
     if !(createIdx < setIdx) then some "the outbox was updated before the activity was stored" else
-    let isActivity := facts.isOrExt "Activity" (Val.typeName input)
+    -- what an activity is comes from the vocabularies themselves (the ontology's closure), not from the generated code
+    let isActivity := Val.typeName input == "Activity" || (AV.anc Gen.ontology (Val.typeName input)).contains "Activity"
     let owner : Option String := (evs.find? fun e => e.name == "actorForOutbox").bind fun e => (jget e.resp "ok").getStr?.toOption
     -- wrapping
     -- the value as it was handed to NewID: the posted activity, or the Create wrapped around the posted object
